@@ -2,6 +2,7 @@
 Tie shared by C04, C05, C16, C19: facts regenerated from pkg/bech32 and its internal base32
 package agree with the model (Iota/Model/Bech32.lean) the theorems are about.
 -/
+import Iota.Tie.Bech32ApiCode
 import Iota.Tie.Bech32CharsCode
 import Iota.Gen.Bech32
 import Iota.Tie.Expect
@@ -42,18 +43,10 @@ theorem decodedLen_eq (n : Nat) : Gen.Bech32.DecodedLen n = (Bech32.decodedLen n
   rw [this, Int.tdiv_eq_ediv_of_nonneg (by omega)]
   omega
 
-/-- the hand-written model was written from exactly this code (`internal/base32`: `Encode`, `Decode`, `EncodedLen`,
-`DecodedLen` are not pinned by text any more: they are translated as code and tied to the model for all inputs in
-`Iota/Tie/Base32Code.lean`; likewise chars.go — `newEncoding`, `encoding.encode`, `encoding.decode` — in
-`Iota/Tie/Bech32CharsCode.lean`) -/
-theorem src :
-    Gen.Bech32.src_bech32_Encode = Expect.Bech32_src_bech32_Encode ∧
-    Gen.Bech32.src_bech32_Decode = Expect.Bech32_src_bech32_Decode ∧
-    Gen.Bech32.src_bech32_isValidHRPChar = Expect.Bech32_src_bech32_isValidHRPChar ∧
-    Gen.Bech32.src_bech32_validateCase = Expect.Bech32_src_bech32_validateCase ∧
-    Gen.Bech32.src_bech32_firstUpper = Expect.Bech32_src_bech32_firstUpper ∧
-    Gen.Bech32.src_bech32_firstLower = Expect.Bech32_src_bech32_firstLower :=
-  ⟨rfl, rfl, rfl, rfl, rfl, rfl⟩
+/-! No function of pkg/bech32 or pkg/bech32/internal/base32 is pinned by text any more: checksum.go, chars.go, base32.go
+and bech32.go itself (`Encode`, `Decode`, `validateCase`, `firstUpper`, `firstLower`, `isValidHRPChar`) are translated as
+code and tied to the model in `Iota/Tie/Bech32Code.lean`, `Base32Code.lean`, `Bech32CharsCode.lean` and
+`Bech32ApiCode.lean` (re-exported below as `code_*`). -/
 
 /-- everything else the package declares (imports, constants, types, variables, build constraints and the functions not
 pinned one by one) is unchanged too: no declaration of the modelled packages can change without a tie theorem failing. -/
@@ -142,5 +135,40 @@ theorem code_charsetDecode (s : List UInt8) (hlen : s.length < 2 ^ 63) :
       | .ok ds => some (bv ds, none)
       | .error n => some (bv ((s.take n).map Bech32.decMap), some "ErrInvalidCharacter") :=
   decode_eq s hlen
+
+/-! ### bech32.go itself translated AS CODE = the model, for all byte strings (proofs: `Iota/Tie/Bech32ApiCode.lean`)
+`Gen.Bech32.api.Encode` / `Decode` take as PARAMETERS what the translation does not define: `strings.ToLower`, `ToUpper`,
+`LastIndex` and the two tables of the package variable `charset`.  `Externs` states exactly what is assumed about the
+library functions (ASCII case mapping on ASCII strings; last occurrence of a byte); the tables are instantiated by what
+the generated `newEncoding` returns (`code_newEncoding`). -/
+open Iota.Tie.Bech32Code (bv) in
+open Iota.Tie.Bech32CharsCode (encTable decTable) in
+open Iota.Tie.Bech32ApiCode in
+/-- the assumptions about the Go library are satisfiable -/
+theorem code_externs_satisfiable : Nonempty Externs := externs_satisfiable
+open Iota.Tie.Bech32Code (bv) in
+open Iota.Tie.Bech32CharsCode (encTable decTable) in
+open Iota.Tie.Bech32ApiCode in
+/-- **`Decode`, every byte string** (ASCII or not, valid UTF-8 or not): the regenerated code returns what the model returns
+— human-readable part, data, or the error kind with its offset — and in particular NEVER PANICS -/
+theorem code_decode (E : Externs) (s : List UInt8) (hlen : s.length < 2 ^ 63) :
+    (Gen.Bech32.api.Decode decTable E.lastIndex E.toLower E.toUpper (bv s) =
+      some (match Bech32.decode s with
+        | .ok (hrp, d) => (bv hrp, bv d, none)
+        | .error e => ([], [], encErr e))) ∧
+    Gen.Bech32.api.Decode decTable E.lastIndex E.toLower E.toUpper (bv s) ≠ none :=
+  ⟨Decode_eq E s hlen, decode_never_panics E s hlen⟩
+open Iota.Tie.Bech32Code (bv) in
+open Iota.Tie.Bech32CharsCode (encTable decTable) in
+open Iota.Tie.Bech32ApiCode in
+/-- **`Encode`**, every prefix and every payload below 2^60 bytes (beyond that `EncodedLen` wraps around and `make` panics —
+`encode_panics_at_2_60`): the model's result, and no panic -/
+theorem code_encode (E : Externs) (hrp src : List UInt8) (hh : hrp.length < 2 ^ 62) (hs : src.length < 2 ^ 60) :
+    (Gen.Bech32.api.Encode encTable E.toLower E.toUpper (bv hrp) (bv src) =
+      some (match Bech32.encode hrp src with
+        | .ok r => (bv r, none)
+        | .error e => ([], encErr e))) ∧
+    Gen.Bech32.api.Encode encTable E.toLower E.toUpper (bv hrp) (bv src) ≠ none :=
+  ⟨Encode_eq' E hrp src hh hs, by rw [Encode_eq' E hrp src hh hs]; exact Option.some_ne_none _⟩
 
 end Iota.Tie.Bech32
